@@ -73,11 +73,20 @@ def run(res, tier, build_ok):
     # object is looked at after many others were created (no shared state between error objects)
     objs = []
     nz = len(bufs) - 2 * len(zero_tail)
+    stalls = []
     for i, b in enumerate(bufs):
         cls = classes[i % 3] if i < nz else classes[(i - nz) // len(zero_tail) + 1]
         res.count("error class " + ("base SCSICheckCondition" if cls is SCSICheckCondition else cls.__qualname__ if hasattr(cls, "__qualname__") else str(cls)))
         try:
-            objs.append(cls(bytearray(b)))
+            with common.time_limit(5.0):
+                objs.append(cls(bytearray(b)))
+        except common.Stalled:
+            res.violation("sense rc=%#x does not terminate" % (b[0] & 0x7F), "decoding a %d-byte sense buffer (response code %#x) did not finish within 5 s" % (len(b), b[0] & 0x7F),
+                          {"sense": bytes(b).hex()})
+            objs.append(RuntimeError("stalled"))
+            stalls.append(1)
+            if len(stalls) >= 3:
+                break           # every further buffer of this shape would cost its full time budget
         except Exception as ex:
             objs.append(ex)
     for b, e in zip(bufs, objs):
@@ -85,7 +94,8 @@ def run(res, tier, build_ok):
         try:
             if not isinstance(e, SCSICheckCondition):
                 raise e
-            s = str(e)
+            with common.time_limit(5.0):
+                s = str(e)
             print_ok = True
             if getattr(e, "asc", None) is not None and "sense_key" in e.data:
                 trip = "%d/%d/%d" % (e.data["sense_key"], e.asc, e.ascq)
@@ -111,6 +121,28 @@ def run(res, tier, build_ok):
         elif want is not None and trip != want:
             res.violation("sense fields rc=%#x" % rc, "key/ASC/ASCQ reported %s, SPC positions hold %s" % (trip, want), {"sense": bytes(b).hex()})
         reqs.append(("sense " + hx(b), impl, want))
+    # ---- "assigned codes are described by their T10 text", judged on the implementation itself: every ASC/ASCQ pair and
+    #      sense key in the oracle's list of well-known assignments (Std.ascqNames / Std.senseKeyNames), in all four
+    #      formats, must appear in str() under the T10 text (letter case aside)
+    names = drv.batch(["t10ascq %d" % c for c in range(65536)])
+    keys = drv.batch(["t10sensekey %d" % k for k in range(16)])
+    for code, r in enumerate(names):
+        if not r.startswith("ok "):
+            continue
+        text = r[3:]
+        for rc in (0x70, 0x71, 0x72, 0x73):
+            k = 1 + (code % 13)
+            b = mk(rc, k, code >> 8, code & 0xFF, 18, junk=False)
+            res.count("T10 text of assigned ASC/ASCQ")
+            try:
+                got = str(classes[(code + rc) % 3](bytearray(b)))
+            except Exception as ex:
+                got = "raises " + type(ex).__name__
+            kr = keys[k]
+            if text.upper() not in got.upper() or (kr.startswith("ok ") and kr[3:].upper() not in got.upper()):
+                res.violation("sense text asc/ascq", "ASC/ASCQ %02X/%02Xh (T10: %s), sense key %Xh: described as %r" % (code >> 8, code & 0xFF, text, k, got[:160]),
+                              {"sense": bytes(b).hex(), "t10_text": text})
+                break
     # ---- the optional field dump (`print_data=True`): constructing, str() and print() must not raise either, for any
     #      response code (the dump goes to a scratch stream)
     import contextlib
